@@ -260,3 +260,170 @@ def rule_gate_registry(ctx):
             r.ok(q, sample={"method": name, "label": label, "registered as": sorted(kinds), "forwards": fwd})
     r.floor(n, 40, "convenience gate methods")
     return r
+
+
+def rule_cache_key_siblings(ctx):
+    r = RuleResult(
+        "cache-key-siblings",
+        "all samplers share one memo of conditional marginals (_sampled_conditionals): every site that reads or "
+        "writes it builds its key by the same expression over (where, result) — the fixed qubits *and* their "
+        "values — so that one sampler can never be served another's entry for a different conditioning; tagged "
+        "_storage keys start with a string tag that is used by one computation only",
+    )
+    sites = []
+    for modname in ("quimb.tensor.circuit.exact", "quimb.tensor.circuit.mps"):
+        m = ctx.prog.module(modname)
+        for f in m.all_functions:
+            if isinstance(f.node, ast.Lambda) or f.parent is not None:
+                continue
+            defs = {}
+            for n in ast.walk(f.node):
+                if isinstance(n, ast.Assign) and len(n.targets) == 1 and isinstance(n.targets[0], ast.Name):
+                    defs.setdefault(n.targets[0].id, []).append(n.value)
+            for n in ast.walk(f.node):
+                if isinstance(n, ast.Subscript) and isinstance(n.value, ast.Attribute) and n.value.attr == "_sampled_conditionals":
+                    k = n.slice
+                    if isinstance(k, ast.Name):
+                        prev = [d for d in defs.get(k.id, []) if d.lineno <= n.lineno]
+                        exprs = prev[-1:] if prev else defs.get(k.id, [])[:1]
+                    else:
+                        exprs = [k]
+                    for e in exprs:
+                        sites.append((f, n.lineno, " ".join(src_of(e).split())))
+    r.floor(len(sites), 6, "accesses of _sampled_conditionals")
+    shapes = {}
+    for f, line, text in sites:
+        shapes.setdefault(text, []).append((f, line))
+    if len(shapes) == 1:
+        text = next(iter(shapes))
+        names = {x.id for x in ast.walk(ast.parse(text, mode="eval")) if isinstance(x, ast.Name)}
+        if {"where", "result"} <= names and ".items()" in text:
+            r.ok("_sampled_conditionals[key]", sample={"key": text, "sites": [f"{f.qualname}:{l}" for f, l in shapes[text]][:8]})
+        else:
+            f0, l0 = shapes[text][0]
+            r.bad(Finding("cache-key-siblings", "_sampled_conditionals", f"key `{text}` does not capture both the fixed qubits and their values (where, result.items())",
+                          where=f"{f0.module.relpath}:{l0}", operand="key-content"))
+    else:
+        major = max(shapes, key=lambda t: len(shapes[t]))
+        for text, lst in shapes.items():
+            if text == major:
+                r.ok(f"_sampled_conditionals[{text}]", nontrivial=False)
+                continue
+            for f, line in lst[:1]:
+                r.bad(Finding(
+                    "cache-key-siblings", f.qualname,
+                    f"builds the key of the shared memo _sampled_conditionals as `{text}` (line {line}) while the other samplers use `{major}`: entries written "
+                    f"under one scheme are served to queries of the other", where=f"{f.module.relpath}:{line}", operand="key-shape"))
+    # _storage tags
+    tags = {}
+    for modname in ("quimb.tensor.circuit.exact", "quimb.tensor.circuit.mps", "quimb.tensor.circuit.core"):
+        m = ctx.prog.module(modname)
+        for f in m.all_functions:
+            if isinstance(f.node, ast.Lambda) or f.parent is not None:
+                continue
+            for n in ast.walk(f.node):
+                if isinstance(n, ast.Assign) and isinstance(n.targets[0], ast.Name) and n.targets[0].id == "key" and isinstance(n.value, ast.Tuple) and n.value.elts \
+                        and isinstance(n.value.elts[0], ast.Constant) and isinstance(n.value.elts[0].value, str):
+                    tags.setdefault(n.value.elts[0].value, []).append((f, " ".join(src_of(n.value).split())))
+    for tag, lst in tags.items():
+        shapes_t = {t for _, t in lst}
+        if len(shapes_t) == 1:
+            r.ok(f"_storage[{tag}]", sample={"tag": tag, "key": lst[0][1], "sites": [f.qualname for f, _ in lst]})
+        else:
+            f0 = lst[0][0]
+            r.bad(Finding("cache-key-siblings", f"_storage[{tag}]", f"the tag {tag!r} is used with different key shapes {sorted(shapes_t)}", where=f"{f0.module.relpath}:{f0.lineno}", operand=tag))
+    return r
+
+
+def rule_perm_tracking(ctx):
+    r = RuleResult(
+        "perm-tracking",
+        "CircuitPermMPS.qubits maps physical position -> logical qubit: it is written only by __init__, copy and "
+        "_apply_gate, and every index used to subscript / pop / insert into it is a physical position (obtained "
+        "from self.qubits.index(...), sorted(...) of such, or an enumerate index) — never a logical label taken "
+        "straight from gate.qubits or a `qubits` argument",
+    )
+    m = ctx.prog.module("quimb.tensor.circuit.mps")
+    cls = m.classes.get("CircuitPermMPS")
+    if cls is None:
+        raise AnalysisError("CircuitPermMPS not found")
+    writers_ok = {"__init__", "copy", "_apply_gate"}
+    n = 0
+    for name, f in cls.methods.items():
+        if f.cls is not cls or f.is_alias or isinstance(f.node, ast.Lambda):
+            continue
+        where = f"{f.module.relpath}:{f.lineno}"
+        q = f"CircuitPermMPS.{name}"
+        # classify locals, line-sensitively: name -> [(line, kind)] with kind in {"phys", "logical", None}
+        binds = {}
+
+        def kind_at(nm, line):
+            prev = [k for ln, k in binds.get(nm, []) if ln < line]
+            if prev:
+                return prev[-1]
+            if nm in ("qubits", "where") and nm in f.params:
+                return "logical"
+            return None
+
+        events = []
+        for x in ast.walk(f.node):
+            if isinstance(x, ast.Assign):
+                events += [(x.lineno, t, x.value) for t in x.targets]
+            elif isinstance(x, ast.For):
+                events.append((x.lineno, x.target, x.iter))
+            elif isinstance(x, ast.comprehension):
+                events.append((x.iter.lineno, x.target, x.iter))
+        for line, t, v in sorted(events, key=lambda e: e[0]):
+            names = [e.id for e in ast.walk(t) if isinstance(e, ast.Name)]
+            vs = src_of(v).replace(" ", "")
+            vnames = {e.id for e in ast.walk(v) if isinstance(e, ast.Name)}
+            if "enumerate(self.qubits)" in vs and len(names) == 2:
+                binds.setdefault(names[0], []).append((line, "phys"))
+                binds.setdefault(names[1], []).append((line, "logical"))
+                continue
+            kinds = {kind_at(nm, line + 1 if nm in names else line) for nm in vnames} - {None}
+            if "self.qubits.index" in vs:
+                k = "phys"
+            elif "gate.qubits" in vs or (".qubits" in vs and "self.qubits" not in vs):
+                k = "logical"
+            elif "self.qubits[" in vs:
+                k = "logical"  # reading the list yields logical labels
+            elif kinds == {"phys"}:
+                k = "phys"
+            elif "logical" in kinds:
+                k = "logical"
+            else:
+                k = None
+            for nm in names:
+                binds.setdefault(nm, []).append((line, k))
+        phys = logical = None
+        for x in ast.walk(f.node):
+            idx = None
+            kind = None
+            if isinstance(x, ast.Subscript) and src_of(x.value) == "self.qubits":
+                idx, kind = x.slice, "store" if isinstance(x.ctx, (ast.Store, ast.Del)) else "load"
+            elif isinstance(x, ast.Call) and isinstance(x.func, ast.Attribute) and src_of(x.func.value) == "self.qubits" and x.func.attr in ("pop", "insert") and x.args:
+                idx, kind = x.args[0], x.func.attr
+            elif isinstance(x, (ast.Assign, ast.AugAssign)) and any(src_of(t) == "self.qubits" for t in (x.targets if isinstance(x, ast.Assign) else [x.target])):
+                kind = "rebind"
+            if kind is None:
+                continue
+            n += 1
+            if kind in ("store", "pop", "insert", "rebind") and name not in writers_ok:
+                r.bad(Finding("perm-tracking", q, f"writes self.qubits (line {x.lineno}); only {sorted(writers_ok)} may", where=where, operand="writer"))
+                continue
+            if idx is None:
+                r.ok(f"{q}[{kind}]", nontrivial=False)
+                continue
+            inames = {e.id for e in ast.walk(idx) if isinstance(e, ast.Name)}
+            ikinds = {kind_at(nm, x.lineno) for nm in inames}
+            if "logical" in ikinds and "phys" not in ikinds:
+                r.bad(Finding(
+                    "perm-tracking", q,
+                    f"indexes self.qubits with `{src_of(idx)}` (line {x.lineno}), a logical qubit label (from gate.qubits / a qubits argument), where a physical "
+                    f"position (self.qubits.index(q)) is required: wrong as soon as the tracked permutation is non-trivial",
+                    where=where, operand=f"{kind}:{src_of(idx)}"))
+            else:
+                r.ok(f"{q}[{kind} {src_of(idx)}]", sample={"method": q, "access": f"{kind} self.qubits[{src_of(idx)}]", "index kind": "physical" if "phys" in ikinds else "neutral"})
+    r.floor(n, 3, "accesses of self.qubits by position")
+    return r
